@@ -42,12 +42,14 @@ def run(pid: str, tier: str, seed: int, replay: str | None) -> int:
                              + ", ".join(core.changed_sources()[:12]) + "; quick-tier case counts tripled, shapes rooted at "
                              + (", ".join(core.changed_classes()) or "no particular class") + " added to the expression streams")
         rng = random.Random(seed * 1000003 + int(pid[1:]))
+        rep.t_round = time.time()
         mod.run(rep, rng, tier, known)
         if tier == "thorough":
             # further independent rounds (fresh generator state each), same report
             for k in range(1, int(os.environ.get("VERIF_THOROUGH_ROUNDS", "4"))):
                 if rep.violations:
                     break
+                rep.t_round = time.time()
                 mod.run(rep, random.Random(seed * 1000003 + int(pid[1:]) + 7907 * k), tier, known, search=True)
         # a broken proof or correspondence is not by itself a violation: search for a failing input
         if not rep.violations and (rep.breaks or not rep.lean.get("ok")):
@@ -56,6 +58,8 @@ def run(pid: str, tier: str, seed: int, replay: str | None) -> int:
             while not rep.violations and time.time() < budget and k < 6:
                 k += 1
                 rep.notes.append(f"search round {k} after a broken proof/correspondence")
+                rep.t_round = time.time()
+                rep.round_budget = 90.0 if tier == "quick" else 600.0
                 mod.run(rep, random.Random(seed * 7919 + 104729 * k + int(pid[1:])), tier, known,
                         search=True)
     except Infra as ex:
